@@ -7,6 +7,7 @@
 -/
 import Msmart.Props.C01Layers
 import Msmart.Lemmas.CodecEqLan
+import Msmart.Props.C07Code
 
 namespace Msmart.Props.C01
 open Msmart Msmart.Model Msmart.Lemmas Msmart.Crypto
@@ -82,5 +83,87 @@ theorem e2e_refresh_v2_code (s : Spec.DevState) (hv : s.Valid) (disp filt : Bool
     obtain ⟨t, rfl⟩ : ∃ t, payload = 0xC0 :: t := by rw [← hP]; exact ⟨_, rfl⟩
     rw [C11.construct_state_frame ft proto style t (by simp at hplen; omega), hst]; rfl
   · rw [CodecEq.parseState_eq, hst]; rfl
+
+
+/-- the translated dispatch on a device-built frame: the class of the payload, and exactly the payload -/
+theorem constructDispatch_respFrame (ft proto : UInt8) (style : Spec.CheckStyle) (p : Bytes) (hp : 4 ≤ p.length) :
+    Generated.Codec.constructDispatch (Spec.respFrame ft proto style p) =
+      (classOfPayload ft p >>= fun cls => pure (cls.tag, p)) := by
+  rw [CodecEq.constructDispatch_eq]
+  unfold constructDispatch
+  rw [respFrame_valid, respClass_respFrame _ _ _ _ hp]
+  simp only [bind, Except.bind]
+  cases hc : classOfPayload ft p with
+  | error e => rfl
+  | ok cls =>
+    simp only
+    have hv : validateUnlessProps cls (Spec.respFrame ft proto style p) = .ok () := by
+      unfold validateUnlessProps
+      split
+      · rw [respFrame_checked]; exact respValidate_bodyCheck style p
+      · rfl
+    rw [hv, respFrame_payload]
+
+/-- **C01 (refresh, V3) about the translated code.** For every device state, check style, id, timestamp, session key,
+    counter, pad bytes and EVERY segmentation of the reply: the translated loop body of `data_received`, iterated, queues
+    exactly the one packet; the translated `_process_packet` decrypts it to the V2 packet; the translated `_Packet.decode`
+    recovers the frame; the translated `Response._construct` accepts it and hands the status payload to the state class;
+    the translated `StateResponse._parse` yields the attributes the model decodes - which a fresh client exposes as exactly
+    the device's state. -/
+theorem e2e_refresh_v3_code (s : Spec.DevState) (hv : s.Valid) (disp filt : Bool) (ir orr dg mid ft proto : UInt8)
+    (style : Spec.CheckStyle) (id : Nat) (ts filler key padBytes : Bytes) (ctr : Nat)
+    (hts : ts.length = 8) (hfl : filler.length = 12)
+    (hpl : padBytes.length = Spec.V3.padOf
+      (Spec.V2.encode id ts filler (Spec.respFrame ft proto style (Spec.statusPayload s disp filt ir orr dg mid))).length)
+    (segs : List Bytes)
+    (hsegs : segs.flatten = Spec.V3.encodeEncrypted key 3 ctr
+      (Spec.V2.encode id ts filler (Spec.respFrame ft proto style (Spec.statusPayload s disp filt ir orr dg mid))) padBytes) :
+    ∃ pkt v2 frame st,
+      C04.feedAllCode [] segs = .ok ([pkt], []) ∧
+      Generated.Codec.processPacket (some key) pkt = .ok v2 ∧
+      Generated.Codec.packetDecode v2 = .ok frame ∧
+      Generated.Codec.constructDispatch frame = .ok (1, Spec.statusPayload s disp filt ir orr dg mid) ∧
+      Generated.Codec.parseState (Spec.statusPayload s disp filt ir orr dg mid) = .ok (Generated.Codec.StateAttrs.ofModel st) ∧
+      (({} : Dev).updateFromState st).power = s.power ∧
+      (({} : Dev).updateFromState st).tempCenti = (s.tempHalf : Int) * 50 ∧
+      (({} : Dev).updateFromState st).fan = (s.fan : Int) ∧
+      (({} : Dev).updateFromState st).auxMode = s.aux ∧
+      (({} : Dev).updateFromState st).displayOn = disp := by
+  generalize hP : Spec.statusPayload s disp filt ir orr dg mid = payload at *
+  have hplen : payload.length = 24 := by rw [← hP]; rfl
+  generalize hF : Spec.respFrame ft proto style payload = frame at *
+  have hflen : frame.length = 36 := by rw [← hF]; simp [Spec.respFrame, hplen]
+  generalize hW : Spec.V2.encode id ts filler frame = v2 at *
+  have hfit : 56 + (encryptAes frame).length < 65536 := C02.small_frames_fit frame (by omega)
+  have hv2len : v2.length = 56 + (encryptAes frame).length := by
+    rw [← hW]; exact C03.authentic_length id ts filler frame hts hfl hfit
+  have hel : (encryptAes frame).length = 48 := by rw [encryptAes_length, hflen]
+  have hsz : v2.length + Spec.V3.padOf v2.length + 32 < 65536 := by
+    rw [hv2len, hel]; decide
+  generalize hK : Spec.V3.encodeEncrypted key 3 ctr v2 padBytes = pkt at *
+  have hwf : C04.WfPacket pkt := by rw [← hK]; exact v3_packet_wf key v2 padBytes 3 ctr hpl hsz
+  obtain ⟨st, hst, h1, h2, _, h4, _, _, _, _, _, _, _, _, _, h14, h15, _⟩ := status_roundtrip s hv disp filt ir orr dg mid
+  rw [hP] at hst
+  refine ⟨pkt, v2, frame, st, ?_, ?_, ?_, ?_, ?_, h1, h2, h4, h14, h15⟩
+  · rw [C04.feedAllCode_eq, C04.segmentation_independent segs [] C04.stable_nil, List.nil_append, hsegs]
+    have := C04.parse_complete_stream [pkt] (by intro p hp; simp at hp; subst hp; exact hwf) (by simp) [] rfl
+    simpa using this
+  · rw [CodecEq.processPacket_eq, ← hK]; exact C05.v3_decode_spec_response key v2 padBytes ctr hpl hsz
+  · rw [CodecEq.packetDecode_eq, ← hW]; exact C02.v2_decode_spec_encode frame ts filler id hts hfl hfit
+  · rw [← hF]
+    obtain ⟨t, rfl⟩ : ∃ t, payload = 0xC0 :: t := by rw [← hP]; exact ⟨_, rfl⟩
+    rw [constructDispatch_respFrame ft proto style (0xC0 :: t) (by simp at hplen ⊢; omega)]
+    simp [classOfPayload, Py.idx, bind, Except.bind, pure, Except.pure, RespClass.tag]
+  · rw [CodecEq.parseState_eq, hst]; rfl
+
+
+/-- **C01 (apply, V3) about the translated code.** … and on a V3 connection the translated `_LanProtocolV3.write` turns that
+    V2 packet, under ANY session key, 12-bit counter and pad bytes, into a packet the independent V3 decoder recovers it from
+    (with that counter), and leaves the counter incremented modulo 4096. -/
+theorem e2e_apply_v3_code (wire key padBytes : Bytes) (pid : Nat) (hp : pid < 4096)
+    (hpl : padBytes.length = v3Pad wire.length) (hsz : wire.length + v3Pad wire.length + 32 < 65536) :
+    ∃ pkt, Generated.Codec.writeV3 (some key) (pid : Int) wire 6 padBytes = .ok (pkt, (((pid + 1) % 4096 : Nat) : Int)) ∧
+      Spec.V3.decodeEncrypted key pkt = some ⟨6, pid, wire⟩ :=
+  C07.write_data_code key wire padBytes pid hp hpl hsz
 
 end Msmart.Props.C01
